@@ -44,6 +44,9 @@ def main():
             "REPORTED" if own else ("analysis-error" if m["property"] in err else "**missed**"), rules.replace("|", "/"),
             " ".join(p for p in sorted(new) if p != m["property"])))
     lines += ["", "Seeds: %d; reported by their own property's check: %d; missed: %s" % (len(metas), n_own, missed or "none")]
+    with open(os.path.join(ROOT, "seeded", "EXPECTED.json"), "w") as f:
+        json.dump({"comment": "seeds reported by their own property's check on the confirmed tree; the thorough tier requires exactly these to stay reported",
+                   "reported_by_own_check": sorted(m["id"] for m in metas if m["id"] not in missed and res.get(m["id"]) is not None)}, f, indent=1)
     with open(os.path.join(ROOT, "seeded", "MATRIX.md"), "w") as f:
         f.write("\n".join(lines) + "\n")
     print(lines[-1])
